@@ -478,7 +478,7 @@ def c17():
 @prop('C18')
 def c18():
     qs = []
-    for t in (0, 2, 3, 4, 5, 6, 7):
+    for t in (0, 2, 3, 4, 5, 6, 7, 8):
         qs.append(Q('print_T%d' % t, 'C18/print.cpp', 45, defs={'VF_T': t}, timeout=300))
     quick_sizes = (1, 2, 7, 8, 9, 15, 16, 17, 31, 32, 33, 40)
     for sz in range(1, 41):
@@ -488,7 +488,7 @@ def c18():
         queries=qs,
         level='model_checking',
         level_text='Bounded: print() on a stream with arbitrary prior (width<=64, any flags, any fill): leaves are inserted decimal/unpadded, the hex dump inserts exactly sizeof(T) bytes in order with the documented line breaks, null pointers print nullptr without dereference, pairs/tuples/collections are element-wise, printer<T> wins, and the prior state is restored after leaf / hex-dump prints.',
-        bound='int, opaque structs of 1..40 bytes (12 sizes quick, all thorough), char const*, int*, unique_ptr<int>, nullptr_t, pair, tuple<3>, nested pair with null, std::array<3>, C array, empty array, printer<T>; all values/bytes; all flags, fill, width<=64',
+        bound='int, opaque structs of 1..40 bytes (12 sizes quick, all thorough), char const*, int*, unique_ptr<int>, nullptr_t, user null-comparable objects (bool and non-bool operator==, alone and inside a pair), pair, tuple<3>, nested pair with null, std::array<3>, C array, empty array, printer<T>; all values/bytes; all flags, fill, width<=64',
         outside='node-based containers, std::string values, real character rendering (the token model records what is inserted and with which stream state; the native build compares exact text on replayed vectors)',
         assumptions=['stream model rt/strings.inc: insertion tokens + (width, flags, fill) triple; formatted insertion resets width'],
     )
